@@ -243,7 +243,7 @@ def shard(ctx):
     rng = ctx.rng("c19")
     sdir = os.path.join(core.SCRATCH, "c19-%d-%d" % (os.getpid(), ctx.shard))
     os.makedirs(sdir, exist_ok=True)
-    n = 25 if ctx.quick else 700
+    n = 25 if ctx.quick else 3000
     try:
         for t in range(n):
             tpl, classes = gen_template(rng)
